@@ -21,7 +21,8 @@ MARK = st.sampled_from([False, False, True, True, 0.5])
 @st.composite
 def population(draw, max_n=24):
     m = draw(st.integers(1, 4))
-    shape = draw(st.sampled_from(["grid", "grid", "grid", "chain", "antichain", "identical", "layered", "floats"]))
+    shape = draw(st.sampled_from(["grid", "grid", "grid", "chain", "antichain", "identical", "layered", "floats",
+                                  "near-chain"]))
     n = draw(st.integers(1, max_n))
     mk_mode = draw(st.sampled_from(["same", "same", "mixed"]))
     base_mark = draw(MARK)
@@ -33,6 +34,11 @@ def population(draw, max_n=24):
     elif shape == "chain":
         for i in range(n):
             vs.append([float(i)] * m)
+    elif shape == "near-chain":
+        # a strict chain whose neighbours differ by 1e-10 relative (costs like 1000.0000001, 1000.0000002, ...)
+        base = draw(st.sampled_from([1000.0, 1.0, 2.4e9]))
+        for i in range(n):
+            vs.append([base * (1.0 + 1e-10 * i)] * m)
     elif shape == "antichain":
         m = max(m, 2)
         for i in range(n):
@@ -106,9 +112,21 @@ def check_sort(case):
         sel.fast_nondominated_sorting([objs[i] for i in case["order2"]])
         sel.fast_nondominated_sorting(list(objs))
         again = [o.features.get("front_number") for o in objs]
+        # one cost list is changed IN PLACE between two sorts (the robust evaluator does that): the next sort must see it
+        if n >= 2:
+            objs[0].costs_signed[0] = objs[0].costs_signed[0] + 1.5
+            sel.fast_nondominated_sorting(list(objs))
+            edited = [o.features.get("front_number") for o in objs]
+            exp_edit = O.pareto_ranks([list(o.costs_signed) for o in objs])
+            objs[0].costs_signed[0] = costs[0][0]
+        else:
+            edited = exp_edit = None
         half = [i for i in case["order2"] if i % 2 == 0]
         sel.fast_nondominated_sorting([objs[i] for i in half])
         sub = [objs[i].features.get("front_number") for i in half]
+    if edited != exp_edit:
+        raise Violation("rank", "resort-after-inplace-edit", "after changing one cost in place the same selector gave %r, "
+                        "true ranks %r" % (edited, exp_edit))
     if again != exp:
         raise Violation("rank", "resort-same-objects", "sorting the same objects a second time gave %r, true ranks %r (%r)" % (
             again, exp, costs))
